@@ -117,6 +117,12 @@ impl HandshakeService {
         }
     }
 
+    /// The handshake bytes this service sends (read-only; `node` area).
+    #[cfg(litep2p_verif)]
+    pub(crate) fn verif_handshake(&self) -> Vec<u8> {
+        self.handshake.read().clone()
+    }
+
     /// Remove outbound substream from [`HandshakeService`].
     pub fn remove_outbound(&mut self, peer: &PeerId) -> Option<Substream> {
         // a handshake result still queued for the removed substream must not be attributed to a
